@@ -180,6 +180,19 @@ func c17JudgeRT(c *mon.Ctx, in *c17RT) {
 			c.Violationf("C17:decoded-data-changed-by-a-later-decode", "the Data returned by DecodeBIP276 (%x…) changed to %x… after another text was decoded", snap[:min(len(snap), 12)], keep[:min(len(keep), 12)])
 		}
 	}
+	// ... and the caller may overwrite it: decoding the SAME text again, right
+	// afterwards, must give the encoded data, not what the caller wrote
+	if c.Try("bscript.DecodeBIP276", func() { got, err = bscript.DecodeBIP276(text) }) && err == nil && got != nil && len(got.Data) > 0 {
+		mon.Scribble(got.Data)
+		got.Prefix, got.Version, got.Network = "scribbled", 250, 251
+		var again *bscript.BIP276
+		if c.Try("bscript.DecodeBIP276", func() { again, err = bscript.DecodeBIP276(text) }) {
+			c.Count("rt:decode-again-after-caller-overwrote-the-result")
+			if err != nil || again == nil || !bytes.Equal(again.Data, in.Data) || again.Prefix != in.Prefix {
+				c.Violationf("C17:decode-again-differs", "decoding %q a second time, after the caller overwrote the first result, returned err=%v and not the encoded data", text, err)
+			}
+		}
+	}
 	// the decoder must read the specification text
 	if c.Try("bscript.DecodeBIP276", func() { got, err = bscript.DecodeBIP276(ref) }) {
 		if err != nil {
